@@ -95,6 +95,39 @@ theorem b64DecodeNoPad_encode (bs : Bytes) : b64DecodeNoPad (b64EncodeNoPad bs) 
     rw [show b64EncodeNoPad bs ++ [b64Pad, b64Pad] = b64Encode bs by simp [hsplit]]
     exact hdec
 
+theorem filter_no_pad (l : List UInt8) (h : ∀ x ∈ l, x ≠ b64Pad) : l.filter (· != b64Pad) = l := by
+  rw [List.filter_eq_self]
+  intro x hx
+  simpa using h x hx
+
+/-- the unpadded decoder accepts only the canonical text of the bytes it returns -/
+theorem b64EncodeNoPad_decode {s : List UInt8} {bs : Bytes} (h : b64DecodeNoPad s = some bs) : s = b64EncodeNoPad bs := by
+  unfold b64DecodeNoPad at h
+  split at h
+  · simp at h
+  · rename_i hc
+    have hs : ∀ x ∈ s, x ≠ b64Pad := by
+      intro x hx hxe
+      apply hc
+      rw [List.contains_iff_mem]
+      exact hxe ▸ hx
+    have key : ∀ k : Nat, b64Decode (s ++ List.replicate k b64Pad) = some bs → s = b64EncodeNoPad bs := by
+      intro k hk
+      have h1 := b64Encode_decode hk
+      rw [b64Encode_split] at h1
+      have h2 := congrArg (List.filter (· != b64Pad)) h1
+      simp only [List.filter_append, List.filter_replicate, bne_self_eq_false, Bool.false_eq_true, if_false,
+        List.append_nil] at h2
+      rw [filter_no_pad _ (b64EncodeNoPad_no_pad bs), filter_no_pad _ hs] at h2
+      exact h2.symm
+    split at h
+    · exact key 0 (by simpa using h)
+    · split at h
+      · exact key 2 (by simpa [List.replicate] using h)
+      · split at h
+        · exact key 1 (by simpa [List.replicate] using h)
+        · simp at h
+
 theorem b64EncodeNoPad_len (bs : Bytes) : (b64EncodeNoPad bs).length = (4 * bs.length + 2) / 3 := by
   fun_induction b64EncodeNoPad bs with
   | case1 => rfl
